@@ -46,10 +46,22 @@ struct S_class_tbb__detail__d2__concurrent_queue Q;
    heap object indexed by a symbolic lane number makes cbmc's propositional encoding explode. */
 typedef struct S_struct_tbb__detail__d2__concurrent_queue_rep rep_t;
 typedef struct S_struct_tbb__detail__d2__micro_queue_elem_t__tbb__detail__d1__cache_aligned_allocator_elem_t____padded_page page_t;
-rep_t REP; int rep_used;
+#ifndef REALCPP
+#define REALCPP 0
+#endif
+#if REALCPP
+struct { rep_t rep; struct S_class_tbb__detail__r1__concurrent_monitor mon[2]; } REPM;   /* what the real allocate_bounded_queue_rep asks for */
+#define REP REPM.rep
+#else
+rep_t REP;
+#endif
+int rep_used;
 int live_allocs;
 u8* _ZN3tbb6detail2r122cache_aligned_allocateEm(u64 n) {
   live_allocs++;
+#if REALCPP
+  if (n == sizeof(REPM) && !rep_used) { rep_used = 1; live_allocs--; return (u8*)&REPM; }
+#endif
   if (n == sizeof(rep_t) && !rep_used) { rep_used = 1; return (u8*)&REP; }
   u8* p;
   if (n == sizeof(page_t)) p = malloc(sizeof(page_t)); else
@@ -62,23 +74,40 @@ void _ZN3tbb6detail2r124cache_aligned_deallocateEPv(u8* p) { live_allocs--; VP_A
 /* ---- external boundary of concurrent_bounded_queue: the r1:: entry points of src/tbb/concurrent_bounded_queue.cpp.
  * allocate_bounded_queue_rep(n): memory for the representation followed by two concurrent_monitors (never touched by the header).
  * wait_bounded_queue_monitor(monitors, tag, target, pred): concurrent_monitor::wait: returns when pred() is false; otherwise the
- *   caller sleeps (registered under context `target` on monitor `tag`) and re-evaluates pred() only after a notification that
- *   selects it. The test-and-sleep step is atomic (that is the monitor's no-lost-wake-up guarantee, checked on the real monitor
- *   in C02); spurious wake-ups are possible in the real monitor and harmless here (pred() is re-evaluated), so not modelled.
+ *   caller sleeps (registered under context `target` on monitor `tag`) until a notification selects it, and then returns WITHOUT
+ *   re-evaluating pred() (concurrent_monitor::wait returns when commit_wait() is true), exactly like the real monitor: a notify that
+ *   selects the wrong sleeper therefore lets that caller proceed wrongly. The test-and-sleep step is atomic (the monitor's
+ *   no-lost-wake-up guarantee, checked on the real monitor in C02).
  * notify_bounded_queue_monitor(monitors, tag, ticket): monitor.notify(predicate_leq(ticket)): wakes every sleeper of monitor `tag`
  *   whose context is <= ticket (unsigned comparison, as predicate_leq does). */
 int bq_sleeping[3]; u64 bq_tag[3], bq_target[3]; int bq_waits, bq_sleeps, bq_notifies, bq_wakes;
-int bq_aborted[3], bq_aborts; u8 TI_ABORT;
+int bq_woken[3], bq_aborted[3], bq_aborts; u8 TI_ABORT;
+#if !REALCPP
 u8* _ZN3tbb6detail2r126allocate_bounded_queue_repEm(u64 n) {
   VP_ASSERT(n == sizeof(rep_t) && !rep_used, "unexpected representation size"); rep_used = 1; return (u8*)&REP;
 }
+#endif
+#if REALCPP
+/* REALCPP units: src/tbb/concurrent_bounded_queue.cpp is real code of the unit (wait/notify/abort wrappers, predicate_leq, allocation);
+   the boundary is concurrent_monitor_base<uintptr_t>::wait(pred, node) / notify(predicate_leq) / abort_all, with the same contracts.
+   `pred` of wait is the closure `[&]{ return !predicate(); }` built by wait_bounded_queue_monitor: one captured reference (closure->f0);
+   the stub evaluates predicate() itself (true = keep waiting). */
+static u64 mon_tag(void* m) { return m == (void*)&REPM.mon[1]; }
+void _ZN3tbb6detail2r123concurrent_monitor_baseImE4waitINS1_10sleep_nodeImEEZNS1_26wait_bounded_queue_monitorEPNS1_18concurrent_monitorEmlRNS0_2d113delegate_baseEE3__0EEbOT0_OT_(
+    struct S_class_tbb__detail__r1__concurrent_monitor_base* mon, struct S_class_anon* closure, struct S_class_tbb__detail__r1__sleep_node* node) {
+  VP_ASSERT((void*)mon == (void*)&REPM.mon[0] || (void*)mon == (void*)&REPM.mon[1], "wait on an unknown monitor");
+  u64 tag = mon_tag(mon), target = vp_node_ctx(node); struct S_class_tbb__detail__d1__delegate_base* pred = closure->f0;
+  unsigned t = vp_cur;
+#else
 void _ZN3tbb6detail2r126wait_bounded_queue_monitorEPNS1_18concurrent_monitorEmlRNS0_2d113delegate_baseE(
     struct S_class_tbb__detail__r1__concurrent_monitor* mon, u64 tag, u64 target, struct S_class_tbb__detail__d1__delegate_base* pred) {
   unsigned t = vp_cur;
+#endif
   __CPROVER_assume(t < 3);
 #if ABORTS
   if (bq_aborted[t]) { bq_aborted[t] = 0; vp_throw_user(&TI_ABORT); return; }   /* woken by abort_all: the wait throws user_abort */
 #endif
+  if (bq_woken[t]) { bq_woken[t] = 0; return; }          /* selected by a notify while asleep: concurrent_monitor::wait returns WITHOUT re-evaluating the predicate (commit_wait() == true) */
   if (bq_sleeping[t]) { VP_BLOCK(); return; }            /* still asleep: nobody notified this sleeper */
   bq_waits++;
   int keep_waiting = (int)vp_call_pred(pred);
@@ -96,10 +125,23 @@ void _ZN3tbb6detail2r128abort_bounded_queue_monitorsEPNS1_18concurrent_monitorE(
 }
 void _ZdlPv(u8* p) { VP_ASSERT(0, "operator delete: nothing here is heap-allocated with new"); }
 #endif
+#if REALCPP
+void _ZN3tbb6detail2r123concurrent_monitor_baseImE6notifyINS1_13predicate_leqEEEvRKT_(struct S_class_tbb__detail__r1__concurrent_monitor_base* mon, struct S_struct_tbb__detail__r1__predicate_leq* sel) {
+  bq_notifies++;
+  for (int t = 0; t < 3; t++) if (bq_sleeping[t] && bq_tag[t] == mon_tag(mon) && vp_call_leq(sel, bq_target[t])) { bq_sleeping[t] = 0; bq_woken[t] = 1; bq_wakes++; vp_changed = 1; }
+}
+#if !ABORTS
+void _ZN3tbb6detail2r123concurrent_monitor_baseImE9abort_allEv(struct S_class_tbb__detail__r1__concurrent_monitor_base* mon) { VP_ASSERT(0, "abort_all: no abort in this unit"); }
+#endif
+void vpx___cxa_pure_virtual(void) { VP_ASSERT(0, "pure virtual call"); }
+void _ZdlPv(u8* p) { VP_ASSERT(0, "operator delete: nothing here is heap-allocated with new"); }
+u64 vpx_syscall(u64 nr, ...) { VP_ASSERT(0, "futex syscall: the monitor internals are cut in this unit"); return 0; }
+#else
 void _ZN3tbb6detail2r128notify_bounded_queue_monitorEPNS1_18concurrent_monitorEmm(struct S_class_tbb__detail__r1__concurrent_monitor* mon, u64 tag, u64 ticket) {
   bq_notifies++;
-  for (int t = 0; t < 3; t++) if (bq_sleeping[t] && bq_tag[t] == tag && bq_target[t] <= ticket) { bq_sleeping[t] = 0; bq_wakes++; vp_changed = 1; }
+  for (int t = 0; t < 3; t++) if (bq_sleeping[t] && bq_tag[t] == tag && bq_target[t] <= ticket) { bq_sleeping[t] = 0; bq_woken[t] = 1; bq_wakes++; vp_changed = 1; }
 }
+#endif
 #endif
 #ifndef FAULTS
 #define FAULTS 0
@@ -266,7 +308,7 @@ int main(void) {
   VP_ASSERT(vp_q_tail(&Q) == (u64)(PRE_PUSH + npush + nfailed), "tail ticket != number of push attempts");
 #if BOUNDED
   VP_ASSERT(PRE_PUSH - PRE_POP + npush - npop_ok <= CAP, "more items stored than the capacity");
-  for (int t = 0; t < 3; t++) VP_ASSERT(!bq_sleeping[t], "a finished thread is still registered as a sleeper");
+  for (int t = 0; t < 3; t++) VP_ASSERT(!bq_sleeping[t] && !bq_woken[t], "a finished thread is still registered as a sleeper / has an unconsumed wake-up");
 #endif
   for (int l = 0; l < 8; l++) VP_ASSERT(vp_q_lane_ok(&Q, l), "lane invariant broken at quiescence (counters / page list / page mutex)");
   VP_ASSERT(vp_q_empty(&Q) == (PRE_PUSH - PRE_POP + npush - npop_ok == 0), "empty() wrong at quiescence");
